@@ -1117,6 +1117,64 @@ async fn run_query_scenario(backend: u8) -> (String, String, String, Vec<(String
     (format!("query-scenario b={}", backend), toks.join(";"), mline.join(";"), violations, trace)
 }
 
+// ------------------------------------------------------ bounded clock ----
+/// Oracle on src/clock.rs alone: under a wall clock that jumps forwards and BACKWARDS (hook
+/// offset), BoundedClock never goes backwards and the retention cut-off is `now - retention -
+/// skew` for a `now` between the reads before and after it.
+fn clock_scenario(rng: &mut Rng) -> (String, Vec<String>) {
+    let skew_s = *rng.pick(&[0u64, 1, 30, 60]);
+    let mut text = format!("clock skew={}", skew_s);
+    for _ in 0..rng.range_usize(3, 12) {
+        let jump = match rng.below(5) {
+            0 => -rng.range_i64(1, 3600),
+            1 => -rng.range_i64(1, 5),
+            2 => 0,
+            3 => rng.range_i64(1, 5),
+            _ => rng.range_i64(1, 3600),
+        };
+        text.push_str(&format!(";J {} {}", jump, *rng.pick(&[0i64, 1, 90])));
+    }
+    let bad = run_clock_scenario(&text);
+    (text, bad)
+}
+
+fn run_clock_scenario(text: &str) -> Vec<String> {
+    use cardinalsin::clock::BoundedClock;
+    let mut it = text.split(';');
+    let skew_s: u64 = it.next().and_then(|h| h.split("skew=").nth(1)).and_then(|v| v.trim().parse().ok()).unwrap_or(30);
+    let clock = BoundedClock::new(Duration::from_secs(skew_s));
+    let mut bad = Vec::new();
+    let mut prev = clock.now_nanos();
+    for tok in it {
+        let f: Vec<&str> = tok.trim().split(' ').collect();
+        if f.len() != 3 {
+            continue;
+        }
+        let jump = f[1].parse::<i64>().unwrap_or(0) * S;
+        let retention = f[2].parse::<i64>().unwrap_or(0) * DAY_S * S;
+        verif_hooks::advance_clock_nanos(jump);
+        let before = clock.now_nanos();
+        let cut = clock.retention_cutoff_nanos(retention);
+        let after = clock.now_nanos();
+        if !(before > prev && after > before) {
+            bad.push(format!("BoundedClock went backwards or stalled: {} -> {} -> {} after a wall-clock jump of {} s", prev, before, after, jump / S));
+        }
+        let margin = retention + skew_s as i64 * S;
+        if !(before - margin < cut && cut < after - margin) {
+            bad.push(format!(
+                "retention cut-off {} is not now - retention - skew for a now between {} and {} (retention {} ns, skew {} s)",
+                cut, before, after, retention, skew_s
+            ));
+        }
+        prev = after;
+    }
+    if BoundedClock::default().max_skew() != Duration::from_secs(SKEW_S as u64) {
+        bad.push(format!("default skew margin is {:?}, the harness and the model assume {} s", BoundedClock::default().max_skew(), SKEW_S));
+    }
+    verif_hooks::set_clock_offset_nanos(0);
+    bad
+}
+
 // ------------------------------------------------------------ generator ----
 fn gen_case(rng: &mut Rng, report: &mut Report) -> Case {
     let backend = if rng.chance(1, 3) { 1 } else { 0 };
@@ -1571,6 +1629,18 @@ fn main() {
         let v: serde_json::Value = serde_json::from_str(&txt).expect("replay json");
         let cv = &v["case"];
         let line = cv.as_str().or_else(|| cv["case"].as_str()).or_else(|| cv["shrunk"].as_str()).unwrap_or("").to_string();
+        if line.starts_with("clock") {
+            let bad = run_clock_scenario(&line);
+            println!("case : {}\noracle failures: {:?}", line, bad);
+            std::process::exit(if bad.is_empty() { 0 } else { 1 });
+        }
+        if let Some(b) = line.strip_prefix("query-scenario b=") {
+            let (name, impl_out, mline, viol, trace) = rt.block_on(run_query_scenario(b.trim().parse().unwrap_or(0)));
+            let m = model.ask(&mline);
+            let mbody = m.split_once("#K=").map(|(b, _)| b.to_string()).unwrap_or(m.clone());
+            println!("case : {}\nimpl : {}\nmodel: {}\ntrace:\n  {}\noracle failures: {:?}", name, impl_out, mbody, trace.join("\n  "), viol);
+            std::process::exit(if viol.is_empty() && (model.is_null() || mbody == impl_out) { 0 } else { 1 });
+        }
         let case = case_parse(&line);
         let (out, mbody, flag) = run_checked(&rt, &mut model, &case);
         println!(
@@ -1610,6 +1680,18 @@ fn main() {
         }
         for (class, what) in viol {
             report.oracle_violation(&class, &what, json!({"case": name, "trace": trace}));
+        }
+    }
+
+    // the clock alone
+    for _ in 0..(if args.thorough() { 2_000 } else { 200 }) {
+        let mut r = rng.fork();
+        let (text, bad) = clock_scenario(&mut r);
+        report.case(Some(&text));
+        report.impl_runs += 1;
+        report.bump("origin.clock_scenario");
+        for b in bad {
+            report.oracle_violation("", &b, json!({"case": text}));
         }
     }
 
